@@ -322,7 +322,13 @@ func runProperty(p *Property, tier, repo, verif string, seed int) int {
 	var fixtures []fixtureResult
 	fixtureBroken := 0
 	if tier == "thorough" {
-		fixtures = runFixtures(p, repo)
+		baseline := map[string]bool{}
+		for _, o := range c.obls {
+			if o.st == Violated {
+				baseline[o.Key] = true
+			}
+		}
+		fixtures = runFixtures(p, repo, baseline)
 		for _, fr := range fixtures {
 			if fr.Result == "MISSED" || fr.Result == "broken" {
 				fixtureBroken++
@@ -431,7 +437,7 @@ func cExtra(p *Property) string {
 }
 
 // runFixtures re-runs the rules on in-memory variants (packages.Config.Overlay).
-func runFixtures(p *Property, repo string) []fixtureResult {
+func runFixtures(p *Property, repo string, baseline map[string]bool) []fixtureResult {
 	out := make([]fixtureResult, len(p.Fixtures))
 	sem := make(chan struct{}, 5) // at most 5 program variants alive at once
 	var wg sync.WaitGroup
@@ -441,14 +447,16 @@ func runFixtures(p *Property, repo string) []fixtureResult {
 			defer wg.Done()
 			sem <- struct{}{}
 			defer func() { <-sem }()
-			out[i] = runFixture(p, repo, fx)
+			out[i] = runFixture(p, repo, fx, baseline)
 		}(i, fx)
 	}
 	wg.Wait()
 	return out
 }
 
-func runFixture(p *Property, repo string, fx Fixture) fixtureResult {
+// A fixture "fires" only through an obligation that holds on the unmodified tree
+// (keys already violated there — known findings — do not count).
+func runFixture(p *Property, repo string, fx Fixture, baseline map[string]bool) fixtureResult {
 	{
 		fr := fixtureResult{Name: fx.Name, File: fx.File, Expect: fx.Expect}
 		abs := filepath.Join(repo, fx.File)
@@ -464,7 +472,7 @@ func runFixture(p *Property, repo string, fx Fixture) fixtureResult {
 		c.finish()
 		hit := ""
 		for _, o := range c.obls {
-			if o.st == Violated && strings.Contains(o.Key, fx.Expect) {
+			if o.st == Violated && !baseline[o.Key] && strings.Contains(o.Key, fx.Expect) {
 				hit = o.Key
 				break
 			}
